@@ -47,6 +47,9 @@ type context struct {
 type tryFrame struct {
 	// holds an uncaught exception for the 'finally' block
 	exception *Exception
+	// holds vm.result (the value of a pending return, or the completion value of the 'try' block)
+	// while the 'finally' block is running
+	result Value
 
 	callStackLen, iterLen, refLen uint32
 
@@ -4794,6 +4797,7 @@ func (leaveTry) exec(vm *vm) {
 	tf := &vm.tryStack[len(vm.tryStack)-1]
 	if tf.finallyPos >= 0 {
 		tf.finallyRet = int32(vm.pc + 1)
+		tf.result = vm.result
 		vm.pc = int(tf.finallyPos)
 		tf.finallyPos = -1
 		tf.catchPos = -1
@@ -4816,14 +4820,17 @@ type leaveFinally struct{}
 
 func (leaveFinally) exec(vm *vm) {
 	tf := &vm.tryStack[len(vm.tryStack)-1]
-	ex, ret := tf.exception, tf.finallyRet
+	ex, ret, res := tf.exception, tf.finallyRet, tf.result
 	tf.exception = nil
+	tf.result = nil
 	vm.popTryFrame()
 	if ex != nil {
 		vm.throw(ex)
 		return
 	} else {
 		if ret != -1 {
+			// a 'finally' block that completes normally does not change the pending completion
+			vm.result = res
 			vm.pc = int(ret)
 		} else {
 			vm.pc++
